@@ -563,6 +563,8 @@ func C12(c *Ctx) {
 	r.Floor("C12-3", "reads of other packages.Package fields (positive control for the matcher)", other, 3)
 	r.Check("C12-3", "no-error-field-read", "-", true, "")
 
+	c.pkgImportsIndexRule("C12-5")
+
 	r.Rule("C12-4", "exactly one os.WriteFile in module code, outside any loop, writing the whole formatted content")
 	if g != nil {
 		r.Check("C12-4", FnKey(g.fn)+":single-write", c.Pos(g.write.Pos()), !inLoop(g.write.Instr.Block()), "the output write sits in a loop")
